@@ -129,7 +129,8 @@ CHECKS = {
     note="Owner ids, link time stamps and stamp-0 entries are outside the statement. umask 022, TZ=UTC. The expectation comes from the "
          "generator (a declarative description of the tree) or from TreeModel.tla, the model tree from replaying the observed calls. "
          "A directory that already exists keeps its mode and time (extract_directory treats EEXIST as success): modelled as such, "
-         "the statement's guarantee is read as being about directories the extraction creates. End of input at the prompt is not modelled.",
+         "the statement's guarantee is read as being about directories the extraction creates. End of input at the overwrite prompt ends "
+         "the tool (exit status 255); TreeModel says what is on disk then, and the exhaustive answer sequences include the ones that run out.",
     technique="trace validation of strace-observed extraction against the FsModel/Extract TLA+ specs plus comparison of the final tree "
               "with the model tree (generator's description / TreeModel.tla: wildcards, pre-existing files, prompt answers, three library "
               "policies), decided by TLC; print output against Cli.tla"),
